@@ -233,10 +233,29 @@ package keeper
 //@ nopanic
 
 // Dequeue: the system transactions handed to the engine when proposing (pops both module queues)
+// C06, proposer side: what a proposer puts at the head of its block is exactly the encoding of the due system transactions,
+// in hand-over order, numbered from the modules' current nonces (the same clauses VerifyDequeue demands of a received block).
 //@ func (Keeper).Dequeue
 //@ requires counters: st.bitcoin.EthTxNonce < 9223372036854775808 && st.locking.EthTxNonce < 9223372036854775808
-//@ property C08 C19
+//@ property C06 C08 C19
+//@ let BN = old(st.bitcoin.EthTxNonce)
+//@ let LN = old(st.locking.EthTxNonce)
+//@ let h = hcnt(old(st.bitcoin.EthTxQueue.BlockNumber), st.bitcoin.BlockTip)
+//@ let d = minint(len(old(st.bitcoin.EthTxQueue.Deposits)), 8)
+//@ let p = minint(len(old(st.bitcoin.EthTxQueue.PaidWithdrawals)), 8)
+//@ let r = minint(len(old(st.bitcoin.EthTxQueue.RejectedWithdrawals)), 8 - minint(len(old(st.bitcoin.EthTxQueue.PaidWithdrawals)), 8))
+//@ let nr = minint(len(old(st.locking.EthTxQueue.Rewards)), 16)
+//@ let nu = minint(len(old(st.locking.EthTxQueue.Unlocks)), 16)
+//@ ensures due_count: err == nil ==> len(result) == h + d + p + r + nr + nu
+//@ ensures hash_bytes: err == nil && old(st.bitcoin.EthTxQueue.BlockNumber) < st.bitcoin.BlockTip ==> result[0] == ethtx_bytes(ethtx_hash(BN, st.bitcoin.BlockHashes[old(st.bitcoin.EthTxQueue.BlockNumber) + 1]))
+//@ ensures deposit_bytes: err == nil ==> by_dep(result, h, old(st.bitcoin.EthTxQueue.Deposits), d, BN + h)
+//@ ensures paid_bytes: err == nil ==> by_paid(result, h + d, old(st.bitcoin.EthTxQueue.PaidWithdrawals), p, BN + h + d)
+//@ ensures reject_bytes: err == nil ==> by_rej(result, h + d + p, old(st.bitcoin.EthTxQueue.RejectedWithdrawals), r, BN + h + d + p)
+//@ ensures reward_bytes: err == nil ==> by_rwd(result, h + d + p + r, old(st.locking.EthTxQueue.Rewards), nr, LN)
+//@ ensures unlock_bytes: err == nil ==> by_unl(result, h + d + p + r + nr, old(st.locking.EthTxQueue.Unlocks), nu, LN + nr)
 //@ loop 0 invariant idx: -1 <= rangeindex && rangeindex < len(btcTxs)
+//@ loop 0 invariant bytes: len(res) == rangeindex + 1 && by_list(res, 0, btcTxs, rangeindex + 1)
 //@ loop 1 invariant idx: -1 <= rangeindex && rangeindex < len(lockingTxs)
+//@ loop 1 invariant bytes: len(res) == len(btcTxs) + rangeindex + 1 && by_list(res, 0, btcTxs, len(btcTxs)) && by_list(res, len(btcTxs), lockingTxs, rangeindex + 1)
 //@ modifies st.bitcoin.EthTxQueue, st.bitcoin.EthTxNonce, st.locking.EthTxQueue, st.locking.EthTxNonce
 //@ nopanic
